@@ -233,7 +233,10 @@ LIB_SHAPES = {'': (7, 6), '-wide': (4, 7)}        # (n_rdm, n_cond) of the evalu
 RESULT_FEATURES = ['base', 'all-model-classes', 'twelve-models', 'no-variances', 'variances-1d',
                    'evaluations-nan', 'evaluations-3models-bootstrap', 'noise-ceiling-nan',
                    'noise-ceiling-matrix', 'dof-zero', 'n-none', 'unicode-method',
-                   'model-desc-matrix'] + ['lib-' + x + w for x in RESULT_LIBS for w in LIB_SHAPES]
+                   'model-desc-matrix', 'single-model', 'single-model-no-variances', 'single-model-bootstrap'] + \
+                  ['lib-' + x + w for x in RESULT_LIBS for w in LIB_SHAPES] + \
+                  ['lib-' + x + w + '-single' for x in RESULT_LIBS[:4] for w in LIB_SHAPES]
+# '-single': ONE model and a fixed (not bootstrapped) noise ceiling: variances is then a 0-d array
 
 
 def features_of(kind):
@@ -256,7 +259,9 @@ def feature_class(kind, feature):
         c, d, _ = CONTAINER_FEATURES[feature]
         return c, d
     if kind == 'Result':
-        return 'result-' + (feature[:-5] if feature.endswith('-wide') else feature), True
+        # the data shape and the number of models do not change the class of a library-made Result
+        f = feature[:-7] if (feature.startswith('lib-') and feature.endswith('-single')) else feature
+        return 'result-' + (f[:-5] if f.endswith('-wide') else f), True
     return {'name-unicode': ('unicode-model-name', True), 'from-vector': ('model-from-vector', True),
             'multi-rdm': ('model-fixed-multi-rdm', True)}.get(feature, (feature, True))
 
@@ -330,12 +335,28 @@ def _result_feature(s, cid, feature):
     elif feature == 'model-desc-matrix':
         for m in s['models']:
             m['rdm']['desc']['noise_prec'] = np.eye(3) * 2.
+    elif feature.startswith('single-model'):
+        s['models'] = s['models'][:1]
+        if feature == 'single-model-bootstrap':
+            ev = np.round(r.random((12, 1)), 5)
+            s['evaluations'] = ev
+            s['cv_method'] = 'bootstrap_rdm'
+            s['variances'] = np.array(np.var(ev[:, 0]))          # 0-d, as np.cov of one model gives
+            s['dof'] = 5
+        else:
+            s['evaluations'] = np.round(r.random((1, 1, 6)), 5)
+            s['variances'] = None if feature.endswith('no-variances') else np.array(np.var(s['evaluations'][0, 0]) / 6)
+            if feature.endswith('no-variances'):
+                s['dof'] = 1
     elif feature.startswith('lib-'):
-        wide = '-wide' if feature.endswith('-wide') else ''
-        name = feature[4:len(feature) - len(wide)]
+        single = feature.endswith('-single')
+        f = feature[:-7] if single else feature
+        wide = '-wide' if f.endswith('-wide') else ''
+        name = f[4:len(f) - len(wide)]
         n_rdm, n_cond = LIB_SHAPES[wide]
-        s['lib'] = (name, n_rdm, n_cond)
-        s['models'] = [_model_spec('ModelFixed', f'lib{cid}_{i}', 50 * cid + i, shape=(1, n_cond)) for i in range(2)]
+        s['lib'] = (name, n_rdm, n_cond, single)
+        s['models'] = [_model_spec('ModelFixed', f'lib{cid}_{i}', 50 * cid + i, shape=(1, n_cond))
+                       for i in range(1 if single else 2)]
     else:
         raise KeyError(feature)
 
@@ -393,7 +414,8 @@ def _lib_result(lib, models, spec):
     """a Result produced by the library's own evaluation functions (deterministic)"""
     import rsatoolbox
     from rsatoolbox import inference as I
-    name, n_rdm, n_cond = lib
+    name, n_rdm, n_cond, single = lib
+    fixed_nc = {'boot_noise_ceil': False} if single else {}
     r = _rng('libdata', name, n_rdm, n_cond)
     data = rsatoolbox.rdm.RDMs(np.round(r.random((n_rdm, n_cond * (n_cond - 1) // 2)), 4) + 0.5,
                                rdm_descriptors={'subj': [f's{i}' for i in range(n_rdm)]},
@@ -407,11 +429,11 @@ def _lib_result(lib, models, spec):
                 if name == 'eval_fixed':
                     res = I.eval_fixed(models, data, method='cosine')
                 elif name == 'eval_bootstrap':
-                    res = I.eval_bootstrap(models, data, method='cosine', N=6)
+                    res = I.eval_bootstrap(models, data, method='cosine', N=6, **fixed_nc)
                 elif name == 'eval_bootstrap_rdm':
-                    res = I.eval_bootstrap_rdm(models, data, method='cosine', N=6)
+                    res = I.eval_bootstrap_rdm(models, data, method='cosine', N=6, **fixed_nc)
                 elif name == 'eval_bootstrap_pattern':
-                    res = I.eval_bootstrap_pattern(models, data, method='cosine', N=6)
+                    res = I.eval_bootstrap_pattern(models, data, method='cosine', N=6, **fixed_nc)
                 elif name == 'bootstrap_crossval':
                     res = I.bootstrap_crossval(models, data, method='cosine', N=4, k_pattern=2, k_rdm=2)
                 elif name == 'crossval':
@@ -893,6 +915,22 @@ def project_path(path, cands):
     return {'ex': 1, 'fmt': fmt, 'own': -1, 'why': 'wrong-content: ' + ' | '.join(why)[:600]}
 
 
+def identify_bytes(seg, cands):
+    """catalogue id of the object a pickle holds (0: none of them)"""
+    loaded = {}
+    for cid, ob in sorted(cands.items()):
+        k = kind_of(ob)
+        lk = 'Dataset' if k == 'TemporalDataset' else ('Model' if k in MODEL_KINDS else k)
+        if lk not in loaded:
+            try:
+                loaded[lk] = do_load(k, io.BytesIO(seg), 'pkl')
+            except Exception as ex:
+                loaded[lk] = ex
+        if not isinstance(loaded[lk], Exception) and not compare_objects(ob, loaded[lk], light=True):
+            return cid
+    return 0
+
+
 def not_refused_class(path, old, old_ob, new, new_ob):
     """what an unrequested write onto an existing file left behind"""
     obs = project_path(path, {new: new_ob})
@@ -926,8 +964,62 @@ class World:
         self.kept = {}
         self.kept_used = set()
         self.loaded = None       # (cid, object, fingerprint)
+        self.stream = None       # the one open binary stream of the pickle-stream events
+        self.stream_buffer = False
+
+    # ---- pickle streams: several objects through ONE handle
+    def stream_handle(self):
+        if self.stream is None:
+            self.stream = io.BytesIO() if self.stream_buffer else open(os.path.join(self.dir, 'stream.dat'), 'w+b')
+        return self.stream
+
+    def stream_save(self, e):
+        ob = self.loaded[1] if e['src'] == 1 else self.obj[e['o']]
+        f = self.stream_handle()
+        out, ex = try_save(ob, f, 'pkl', e['ow'])
+        if f.closed and ex is None:
+            out, ex = 'Raises', IOError("the save closed the caller's open file object")
+        elif not f.closed:
+            f.flush()
+        return out, ex
+
+    def stream_load(self, kind):
+        return do_load(kind, self.stream_handle(), 'pkl')
+
+    def stream_view(self):
+        """OBSERVED content of the stream: the catalogue id of every pickle in it (raw split with the
+        pickle module, each segment identified with the library's loader on a private buffer) and the
+        number of pickles before the handle's position (-1: the position is inside a pickle)"""
+        f = self.stream_handle()
+        if f.closed:
+            return {'items': [-1], 'pos': -1}
+        pos = f.tell()
+        if self.stream_buffer:
+            data = f.getvalue()
+        else:
+            f.flush()
+            with open(os.path.join(self.dir, 'stream.dat'), 'rb') as g:
+                data = g.read()
+        buf = io.BytesIO(data)
+        bounds, items = [0], []
+        while buf.tell() < len(data):
+            start = buf.tell()
+            try:
+                pickle.load(buf)
+            except Exception:
+                items.append(-1)
+                break
+            seg = data[start:buf.tell()]
+            bounds.append(buf.tell())
+            items.append(identify_bytes(seg, self.pristine))
+        return {'items': items, 'pos': bounds.index(pos) if pos in bounds else -1}
 
     def close(self):
+        if self.stream is not None:
+            try:
+                self.stream.close()
+            except Exception:
+                pass
         for f in self.kept.values():
             try:
                 f.close()
@@ -1028,22 +1120,66 @@ def replay(rec, idx, directory, safe):
     kinds = rec['kinds']
     feats = pick_features(kinds, idx, safe)
     w = World(os.path.join(directory, f'h{idx}'), kinds, feats, safe.get('__pathlib__'))
-    case = {'kinds': kinds, 'features': feats, 'events': [h['ev'] for h in rec['hist']]}
+    # an in-memory buffer is a file object too (overwrite is not applied to buffers: real file then)
+    w.stream_buffer = idx % 2 == 0 and not any(h['ev']['op'] == 'ssave' and h['ev']['ow'] for h in rec['hist'])
+    case = {'kinds': kinds, 'features': feats, 'events': [h['ev'] for h in rec['hist']],
+            'stream': 'BytesIO' if w.stream_buffer else 'file opened w+b'}
     try:
         for k, h in enumerate(rec['hist']):
             e = h['ev']
             v = _replay_step(w, e, h)
             if v is not None:
                 key, what, detail = v
-                case.update({'step': k, 'detail': detail, 'expected': {x: h[x] for x in ('out', 'res', 'post')}})
+                case.update({'step': k, 'detail': detail, 'expected': {x: h[x] for x in ('out', 'res', 'post', 'spost')}})
                 return k + 1, (key, what, case)
         return len(rec['hist']), None
     finally:
         w.close()
 
 
+def _stream_step(w, e, h):
+    """one pickle-stream event of a TLC history"""
+    hashes = {q: file_hash(w.paths[q]) for q in (1, 2)}
+    want = {'items': list(h['spost']['items']), 'pos': h['spost']['pos']}
+    if e['op'] == 'sseek':
+        w.stream_handle().seek(0)
+    elif e['op'] == 'ssave':
+        sit = 'overwrite' if e['ow'] else 'append'
+        out, ex = w.stream_save(e)
+        ch = w.mem_changed()
+        if ch is not None:
+            return ('d/pkl/object-changed', 'saving changed the in-memory object', {'object': ch[0], 'change': ch[1]})
+        if out != 'Ok':
+            return (f'e/pkl/stream/{sit}/raises-{type(ex).__name__}', 'saving through an open handle raises',
+                    {'error': f'{type(ex).__name__}: {ex}'})
+    else:
+        exp = h['res']
+        try:
+            lo = w.stream_load(w.kinds[exp - 1])
+        except Exception as ex:
+            return (f'a/pkl/stream/load/raises-{type(ex).__name__}',
+                    'objects saved one after the other through one handle: reading them back in order raises',
+                    {'error': f'{type(ex).__name__}: {ex}', 'expected_content': exp})
+        diff = compare_objects(w.pristine[exp], lo)
+        if diff:
+            got = [c for c, ob in w.pristine.items() if type(ob) is type(lo) and not compare_objects(ob, lo, light=True)]
+            return ('a/pkl/stream/load/wrong-object',
+                    'objects saved one after the other through one handle: a load does not return the object at the '
+                    'handle position', {'expected_content': exp, 'returned_equals_content': got, 'diff': diff[:3]})
+        w.loaded = (exp, lo, fingerprint(lo))
+    got = w.stream_view()
+    if got != want:
+        return (f"e/pkl/stream/{e['op']}/stream-state", 'content or position of the stream after the call differs from the specification',
+                {'observed': got, 'expected': want})
+    if any(file_hash(w.paths[q]) != hashes[q] for q in (1, 2)):
+        return (f"e/pkl/stream/{e['op']}/file-modified", 'a stream operation changed a file', {})
+    return None
+
+
 def _replay_step(w, e, h):
     fmt, mode = e['fmt'], e['mode']
+    if e['op'] in ('ssave', 'sload', 'sseek'):
+        return _stream_step(w, e, h)
     if e['op'] == 'close':
         w.close_handle(e['p'])
         return None
@@ -1133,6 +1269,9 @@ def record_history(seed, length, directory, safe, modes=('path', 'pathlib', 'fre
     view = {1: {'ex': 0, 'fmt': '', 'own': 0}, 2: {'ex': 0, 'fmt': '', 'own': 0}}
     held = set()
     loaded = 0
+    w.stream_buffer = bool(rng.integers(0, 2))
+    sview = {'items': [], 'pos': 0}
+    mine = []                 # what this caller wrote to the stream (it picks the loader by that)
     try:
         tries = 0
         while len(steps) < length and tries < 40 * length:
@@ -1140,7 +1279,25 @@ def record_history(seed, length, directory, safe, modes=('path', 'pathlib', 'fre
             p = int(rng.integers(1, 3))
             has = view[p]['ex'] == 1 and view[p]['own'] != 0
             u = rng.random()
-            if u < 0.62:
+            if u < 0.3:
+                v = rng.random()
+                n_items = len(sview['items'])
+                if v < 0.45:
+                    src = 1 if (loaded > 0 and rng.random() < 0.25) else 0
+                    ow = 0 if w.stream_buffer else int(rng.random() < 0.2)
+                    e = {'op': 'ssave', 'o': loaded if src else int(rng.integers(1, 4)), 'src': src, 'p': 0,
+                         'fmt': 'pkl', 'ow': ow, 'mode': 'stream'}
+                    if not ow and sview['pos'] != n_items:
+                        continue
+                elif v < 0.8:
+                    if not (0 <= sview['pos'] < n_items) or len(mine) != n_items:
+                        continue
+                    e = {'op': 'sload', 'o': 0, 'src': 0, 'p': 0, 'fmt': 'pkl', 'ow': 0, 'mode': 'stream'}
+                else:
+                    if not n_items:
+                        continue
+                    e = {'op': 'sseek', 'o': 0, 'src': 0, 'p': 0, 'fmt': 'pkl', 'ow': 0, 'mode': 'stream'}
+            elif u < 0.62:
                 src = 1 if (loaded > 0 and rng.random() < 0.25) else 0
                 e = {'op': 'save', 'o': loaded if src else int(rng.integers(1, 4)), 'src': src, 'p': p,
                      'fmt': str(rng.choice(FMTS)), 'ow': int(rng.integers(0, 2)), 'mode': str(rng.choice(modes))}
@@ -1158,7 +1315,33 @@ def record_history(seed, length, directory, safe, modes=('path', 'pathlib', 'fre
                     continue
                 e = {'op': 'close', 'o': 0, 'src': 0, 'p': p, 'fmt': '', 'ow': 0, 'mode': ''}
             st = {'ev': e, 'out': 'Ok', 'res': 0, 'memok': 1, 'sit': '', 'why': ''}
-            if e['op'] == 'close':
+            if e['op'] == 'sseek':
+                w.stream_handle().seek(0)
+            elif e['op'] == 'ssave':
+                st['sit'] = 'overwrite' if e['ow'] else 'append'
+                out, ex = w.stream_save(e)
+                if out != 'Ok':
+                    st['error'] = f'{type(ex).__name__}: {ex}'
+                    st['errtype'] = type(ex).__name__
+                    steps.append(st)
+                    break
+                mine = [e['o']] if e['ow'] else mine + [e['o']]
+            elif e['op'] == 'sload':
+                exp = mine[sview['pos']]
+                try:
+                    lo = w.stream_load(kinds[exp - 1])
+                except Exception as ex:
+                    st['error'] = f'{type(ex).__name__}: {ex}'
+                    st['errtype'] = type(ex).__name__
+                    steps.append(st)
+                    break
+                got = [c for c, ob in w.pristine.items() if type(ob) is type(lo) and not compare_objects(ob, lo)]
+                st['res'] = exp if exp in got else (got[0] if got else 0)
+                if st['res']:
+                    w.loaded = (st['res'], lo, fingerprint(lo))
+                    loaded = st['res']
+                st['why'] = '' if st['res'] == exp else f'returned an object equal to content {got}, the handle was at content {exp}'
+            elif e['op'] == 'close':
                 w.close_handle(p)
                 held.discard(p)
             elif e['op'] == 'save':
@@ -1212,7 +1395,12 @@ def record_history(seed, length, directory, safe, modes=('path', 'pathlib', 'fre
                     st['why'] = obs[q]['why']
             view = {q: {'ex': obs[q]['ex'], 'fmt': obs[q]['fmt'], 'own': obs[q]['own']} for q in (1, 2)}
             st['post'] = [view[1], view[2]]
+            if e['op'] in ('ssave', 'sload', 'sseek'):
+                sview = w.stream_view()
+            st['spost'] = {'items': list(sview['items']), 'pos': sview['pos']}
             steps.append(st)
+            if sview['pos'] < 0 or any(x <= 0 for x in sview['items']):
+                break                     # the stream left the model; the trace spec will say where
             if any(view[q]['own'] < 0 for q in (1, 2)):
                 break                     # the file system left the model; the trace spec will say where
     finally:
